@@ -386,9 +386,17 @@ func (d *defaultRouter) Lookup(method, path string) (*MatchedRoute, bool) {
 					if xpos := idx + len(p.Name) + enclosureSize; idx >= 0 && xpos < len(entry.PathPattern) && entry.PathPattern[xpos] != '/' {
 						// extract fragment parameters
 						ep := strings.Split(entry.PathPattern[xpos:], "/")[0]
-						pnames, pvalues := decodeCompositParams(p.Name, v, ep, nil, nil)
+						// the static text of the pattern separates the fragments of the still percent-encoded
+						// segment (an escaped separator such as %2D belongs to a value); each fragment is
+						// unescaped on its own
+						pnames, pvalues := decodeCompositParams(p.Name, p.Value, ep, nil, nil)
 						for i, pname := range pnames {
-							params = append(params, RouteParam{Name: pname, Value: pvalues[i]})
+							pvalue, err := url.PathUnescape(pvalues[i])
+							if err != nil {
+								d.debugLogf("failed to escape %q: %v", pvalues[i], err)
+								pvalue = pvalues[i]
+							}
+							params = append(params, RouteParam{Name: pname, Value: pvalue})
 						}
 					} else {
 						// use the parameter directly
